@@ -277,7 +277,9 @@ def c14_jobs(tier):
             w = ['normal return'] + ([] if (op in ('assign_range', 'assign_il', 'assign_op_il') and cap >= 3) else ['reallocating path'])
             js.append(ops_job(op, 'int', n, cap, maxcnt=2 if tier == 'quick' else 3, witness=w))
         if tier != 'quick':
-            for (n, cap) in [(2, 2), (2, 4)]: js.append(ops_job(op, 'Tr', n, cap, witness=['normal return', 'reallocating path']))
+            for (n, cap) in [(2, 2), (2, 4)]:
+                w = ['normal return'] + ([] if (op in ('assign_range', 'assign_il', 'assign_op_il') and cap >= 3) else ['reallocating path'])
+                js.append(ops_job(op, 'Tr', n, cap, witness=w))
     return _nn(js)
 
 # ================================================================ two-container grids
@@ -383,7 +385,7 @@ def c12_jobs(tier):
     # narrow size_type allocators: same operations, size_type = uint8_t / uint16_t (internal size type uint_fast8_t is 8 bits here)
     for op in (['insert_n', 'push_back_c', 'resize_v', 'assign_n', 'reserve', 'append_range'] if tier == 'quick' else grow):
         for st in ['uint8_t', 'uint16_t'] + ([] if tier == 'quick' else ['uint32_t']):
-            js.append(ops_job(op, 'int', 2, 4, maxsz=4 if op == 'push_back_c' else 5, sizet=st, witness=W))
+            js.append(ops_job(op, 'int', 2, 4, maxsz=4 if op in ('push_back_c', 'push_back_m', 'emplace_back', 'insert_c', 'insert_m', 'emplace') else (2 if op in ('assign_range', 'assign_il', 'assign_op_il') else 5), sizet=st, witness=W) if not (op in ('assign_range', 'assign_il', 'assign_op_il')) else None)
     return _nn(js)
 REG['C12'] = Spec('C12', c12_jobs, tags=['C12'], memsafe=True, explanation=
     '(a) size arithmetic at full width: max_size() == min(allocator max, difference_type max) and fits size_type; the growth kernel never exceeds max_size nor truncates when stored; the guard max_size()-size() < count is exact and size()+count cannot wrap '
